@@ -9,6 +9,7 @@ import (
 	"fmt"
 	"math/rand"
 	"runtime/debug"
+	"strings"
 	"sync/atomic"
 	"time"
 	"unsafe"
@@ -96,8 +97,8 @@ func Yield(site string) {
 var AtomicFilter func() bool
 
 func hook(op string, addr unsafe.Pointer) {
-	if f := AtomicFilter; f != nil && !f() {
-		return
+	if f := AtomicFilter; f != nil && !f() && !strings.HasSuffix(op, "-wait") {
+		return // ("-wait": a lock is held by a parked worker - it must be allowed to run)
 	}
 	Yield(op)
 }
